@@ -1,7 +1,7 @@
 (* Dispatch.v -- request decoder / response encoder for the extracted model.
    One request = one S-expression (op arg ...); one response = one S-expression. *)
 From Coq Require Import String.
-From Torf Require Import Base Sexp Geometry Stream History.
+From Torf Require Import Base Sexp Bencode PyVal Geometry Stream History Convert Validate Export.
 Open Scope Z_scope.
 
 Definition getFile (s : sexp) : option file := getPair getZ getZ s.
@@ -74,11 +74,11 @@ Definition handle_geom (op : list N) (args : list sexp) : option sexp :=
 Definition getDisk (s : sexp) : option disk := getList (getPair getZ getB) s.
 
 Definition xitem_sexp (x : xitem) : sexp :=
-  L [match fst x with XMissing => S "missing" | XSize => S "size" end; ZA (snd x)].
+  L [match fst x with XMissing => Sy "missing" | XSize => Sy "size" end; ZA (snd x)].
 
 Definition item_sexp (it : item) : sexp :=
   let '(p, f, xs) := it in
-  L [match p with Some b => HA b | None => S "none" end; ZA f; L (List.map xitem_sexp xs)].
+  L [match p with Some b => HA b | None => Sy "none" end; ZA f; L (List.map xitem_sexp xs)].
 
 Definition getHop (s : sexp) : option hop :=
   match s with
@@ -96,8 +96,8 @@ Definition hout_sexp (o : hout * Z) : sexp :=
   L [match fst o with
      | OItems r => res_sexp (fun l => L (List.map item_sexp l)) r
      | OPiece r => res_sexp HA r
-     | OVerify r => res_sexp (fun b => match b with Some b => BA b | None => S "none" end) r
-     | OClosed => S "closed"
+     | OVerify r => res_sexp (fun b => match b with Some b => BA b | None => Sy "none" end) r
+     | OClosed => Sy "closed"
      end; ZA (snd o)].
 
 Definition handle_stream (op : list N) (args : list sexp) : option sexp :=
@@ -119,6 +119,191 @@ Definition handle_stream (op : list N) (args : list sexp) : option sexp :=
     | _ => None end
   else None.
 
+(* ---- pyval wire format ---- *)
+Fixpoint pyval_of_sexp (s : sexp) : option pyval :=
+  match s with
+  | A a => if atom_is "none" a then Some PNone else if atom_is "other" a then Some POther else None
+  | L (A tag :: args) =>
+      let many := (fix many (l : list sexp) : option (list pyval) :=
+                     match l with
+                     | [] => Some []
+                     | x :: r => match pyval_of_sexp x, many r with
+                                 | Some v, Some vs => Some (v :: vs) | _, _ => None end
+                     end) in
+      let pairs := (fix pairs (l : list sexp) : option (list (pyval * pyval)) :=
+                     match l with
+                     | [] => Some []
+                     | L [k; v] :: r => match pyval_of_sexp k, pyval_of_sexp v, pairs r with
+                                        | Some k', Some v', Some ps => Some ((k', v') :: ps) | _, _, _ => None end
+                     | _ => None
+                     end) in
+      if atom_is "b" tag then match args with [x] => option_map PBool (getBool x) | _ => None end
+      else if atom_is "i" tag then match args with [x] => option_map PInt (getZ x) | _ => None end
+      else if atom_is "ihex" tag then
+        match args with
+        | [n; x] => match getBool n, getB x with
+                    | Some n, Some b =>
+                        let z := List.fold_left (fun acc c => acc * 256 + Z.of_N c) b 0 in
+                        Some (PInt (if n then - z else z))
+                    | _, _ => None end
+        | _ => None end
+      else if atom_is "dt" tag then match args with [x] => option_map PDatetime (getZ x) | _ => None end
+      else if atom_is "s" tag then match args with [x] => option_map PStr (getB x) | _ => None end
+      else if atom_is "y" tag then match args with [x] => option_map PBytes (getB x) | _ => None end
+      else if atom_is "fl" tag then
+        match args with
+        | [A k; x] =>
+            if atom_is "int" k then option_map (fun z => PFloat (FInt z)) (getZ x)
+            else if atom_is "half" k then option_map (fun z => PFloat (FHalf z)) (getZ x)
+            else if atom_is "inf" k then option_map (fun b => PFloat (FInf b)) (getBool x)
+            else None
+        | [A k] => if atom_is "nan" k then Some (PFloat FNaN) else None
+        | _ => None end
+      else if atom_is "l" tag then option_map PList (many args)
+      else if atom_is "t" tag then option_map PTuple (many args)
+      else if atom_is "set" tag then option_map PSet (many args)
+      else if atom_is "d" tag then option_map PDict (pairs args)
+      else None
+  | _ => None
+  end.
+
+Fixpoint sexp_of_pyval (v : pyval) : sexp :=
+  match v with
+  | PNone => Sy "none"
+  | POther => Sy "other"
+  | PBool b => L [Sy "b"; BA b]
+  | PInt z => L [Sy "i"; ZA z]
+  | PDatetime z => L [Sy "dt"; ZA z]
+  | PStr b => L [Sy "s"; HA b]
+  | PBytes b => L [Sy "y"; HA b]
+  | PFloat (FInt z) => L [Sy "fl"; Sy "int"; ZA z]
+  | PFloat (FHalf z) => L [Sy "fl"; Sy "half"; ZA z]
+  | PFloat (FInf b) => L [Sy "fl"; Sy "inf"; BA b]
+  | PFloat FNaN => L [Sy "fl"; Sy "nan"]
+  | PList l => L (Sy "l" :: List.map sexp_of_pyval l)
+  | PTuple l => L (Sy "t" :: List.map sexp_of_pyval l)
+  | PSet l => L (Sy "set" :: List.map sexp_of_pyval l)
+  | PDict kvs => L (Sy "d" :: List.map (fun kv => L [sexp_of_pyval (fst kv); sexp_of_pyval (snd kv)]) kvs)
+  end.
+
+Fixpoint sexp_of_bval (v : bval) : sexp :=
+  match v with
+  | BInt z => L [Sy "i"; ZA z]
+  | BStr b => L [Sy "y"; HA b]
+  | BList l => L (Sy "l" :: List.map sexp_of_bval l)
+  | BDict kvs => L (Sy "d" :: List.map (fun kv => L [HA (fst kv); sexp_of_bval (snd kv)]) kvs)
+  end.
+
+Definition getMeta (s : sexp) : option metainfo :=
+  match pyval_of_sexp s with Some (PDict kvs) => Some kvs | _ => None end.
+
+Definition getFs (s : sexp) : option fsinfo :=
+  match s with
+  | A a => if atom_is "none" a then Some FSNone else None
+  | L [A t; b; z] =>
+      if atom_is "single" t then
+        match getBool b, getZ z with Some b, Some z => Some (FSSingle b z) | _, _ => None end
+      else if atom_is "multi" t then
+        match getBool b, getList (fun x => match x with
+                                            | L [e; f; n] => match getBool e, getBool f, getZ n with
+                                                             | Some e, Some f, Some n => Some (e, f, n) | _, _, _ => None end
+                                            | _ => None end) z with
+        | Some b, Some l => Some (FSMulti b l) | _, _ => None end
+      else None
+  | _ => None
+  end.
+
+Definition getTarget (s : sexp) : option target :=
+  match s with
+  | A a => if atom_is "absent" a then Some TAbsent else if atom_is "dir" a then Some TDir
+           else if atom_is "noperm-absent" a then Some (TNoPerm None) else None
+  | L [A t; c] =>
+      if atom_is "file" t then option_map TFile (getB c)
+      else if atom_is "noperm" t then option_map (fun b => TNoPerm (Some b)) (getB c) else None
+  | _ => None
+  end.
+
+Definition target_sexp (t : target) : sexp :=
+  match t with
+  | TAbsent => Sy "absent" | TDir => Sy "dir" | TNoPerm None => Sy "noperm-absent"
+  | TFile c => L [Sy "file"; HA c] | TNoPerm (Some c) => L [Sy "noperm"; HA c]
+  end.
+
+Definition unit_sexp (_ : unit) : sexp := Sy "unit".
+
+Definition handle_meta (op : list N) (args : list sexp) : option sexp :=
+  if atom_is "meta.validate" op then
+    match args with
+    | [fs; md] => match getFs fs, getMeta md with
+                  | Some fs, Some md => Some (res_sexp unit_sexp (validate simple_is_url fs md))
+                  | _, _ => None end
+    | _ => None end
+  else if atom_is "meta.is_ready" op then
+    match args with
+    | [fs; md] => match getFs fs, getMeta md with
+                  | Some fs, Some md => Some (res_sexp BA (is_ready simple_is_url fs md))
+                  | _, _ => None end
+    | _ => None end
+  else if atom_is "meta.dump" op then
+    match args with
+    | [fs; v; md] => match getFs fs, getBool v, getMeta md with
+                  | Some fs, Some v, Some md => Some (res_sexp HA (dump simple_is_url fs v md))
+                  | _, _, _ => None end
+    | _ => None end
+  else if atom_is "meta.infohash_input" op then
+    match args with
+    | [fs; md] => match getFs fs, getMeta md with
+                  | Some fs, Some md => Some (res_sexp HA (infohash_input simple_is_url fs md))
+                  | _, _ => None end
+    | _ => None end
+  else if atom_is "meta.read_stream" op then
+    match args with
+    | [v; c] => match getBool v, getB c with
+                  | Some v, Some c =>
+                      Some (res_sexp (fun md => sexp_of_pyval (PDict md)) (read_stream simple_is_url v c))
+                  | _, _ => None end
+    | _ => None end
+  else if atom_is "meta.read_then" op then
+    (* read_stream, then validate and dump the result (C08) *)
+    match args with
+    | [v; c] => match getBool v, getB c with
+                  | Some v, Some c =>
+                      Some (match read_stream simple_is_url v c with
+                            | Err e => L [Sy "err"; exn_sexp e]
+                            | Ok md => L [Sy "ok"; res_sexp unit_sexp (validate simple_is_url FSNone md);
+                                          res_sexp HA (dump simple_is_url FSNone true md);
+                                          res_sexp HA (dump simple_is_url FSNone false md)]
+                            end)
+                  | _, _ => None end
+    | _ => None end
+  else if atom_is "meta.write" op then
+    match args with
+    | [fs; ow; v; md; t] =>
+        match getFs fs, getBool ow, getBool v, getMeta md, getTarget t with
+        | Some fs, Some ow, Some v, Some md, Some t =>
+            let '(r, t') := write simple_is_url fs ow v md t in
+            Some (L [res_sexp unit_sexp r; target_sexp t'])
+        | _, _, _, _, _ => None end
+    | _ => None end
+  else if atom_is "meta.write_stream" op then
+    match args with
+    | [fs; v; md; sk; c; fl] =>
+        match getFs fs, getBool v, getMeta md, getBool sk, getB c, getBool fl with
+        | Some fs, Some v, Some md, Some sk, Some c, Some fl =>
+            let '(r, s') := write_stream simple_is_url fs v md {| ss_seekable := sk; ss_content := c; ss_fail := fl |} in
+            Some (L [res_sexp unit_sexp r; HA (ss_content s')])
+        | _, _, _, _, _, _ => None end
+    | _ => None end
+  else if atom_is "benc.decode" op then
+    match args with
+    | [c] => match getB c with Some c => Some (res_sexp sexp_of_bval (bdec c)) | None => None end
+    | _ => None end
+  else if atom_is "url.is_url" op then
+    match args with
+    | [c] => match getB c with Some c => Some (BA (simple_is_url c)) | None => None end
+    | _ => None end
+  else None.
+
 Definition handle (req : sexp) : sexp :=
   match req with
   | L (A op :: args) =>
@@ -127,7 +312,11 @@ Definition handle (req : sexp) : sexp :=
       | None =>
           match handle_stream op args with
           | Some r => r
-          | None => bad_request
+          | None =>
+              match handle_meta op args with
+              | Some r => r
+              | None => bad_request
+              end
           end
       end
   | _ => bad_request
